@@ -11,9 +11,17 @@ for that path with the md5 of the file's current bytes, the cache left behind is
 the model's `readreport`.
 
 Streams: (1) bounded-exhaustive: from 3 initial states, all operation sequences up to length
-3 (quick) / 4 (thorough) over a 43-letter alphabet on 3 paths x 3 contents that end in a scan;
-(2) random histories up to length 25 on 5 paths (one of an unsupported language) x 4 contents x
-4 exclusion settings; (3) version guard of report/findings."""
+3 (quick) / 4 (thorough) over a 47-letter alphabet on 3 paths x 3 contents that end in a scan;
+(2) random histories up to length 25 on 7 paths (one of an unsupported language, two directories
+with the same file names) x 10 contents (plain, several same-named functions on one line, a size
+ladder 10^3..10^6 bytes) x 5 exclusion settings (one with a negated pattern) x 4 configurations
+(verbose, repository), including back-dated writes, symbolic links to old files and directories
+renamed over each other; (3) version guard of report/findings; (4) round trip of every content
+under every path through the cache (scan, scan, touch, scan, other configuration, scan);
+(5) replacement matrix: every way of putting other bytes under a cached path (write, back-dated
+write on a ladder of ages, delete+write, rename over, swap, directory renamed over, symbolic link
+created / re-pointed) x ordered pairs of contents from the ladder x configurations, scanned before
+and twice after."""
 import contextlib
 import io
 import os
@@ -32,6 +40,7 @@ ASSUMPTIONS = [
     "md5 is collision-free on the contents that occur (hypothesis `Function.Injective P.hash` of the theorems)",
     "a cache file of the CURRENT version that was not written by a scan is honest (entries are analyses of some content with that checksum); forged same-version entries with a valid checksum are undetectable and outside the property (DESIGN Appendix A)",
     "nothing modifies the tree while a scan runs",
+    "a path that is a symbolic link to a regular file outside the tree counts as a file with the target's bytes (the from-scratch oracle scans a copy made of regular files)",
 ]
 
 INITS = [
@@ -53,6 +62,7 @@ def alphabet():
             if x != y:
                 a.append(["r", x, y])
     a.append(["t", 0])
+    a += [["wb", 0, 1, 8], ["wb", 1, 2, 3], ["ln", 0, 2], ["ln", 2, 1]]   # back-dated writes, links to old files
     for x, y in ((0, 1), (0, 2), (1, 2)):
         a.append(["x", x, y])
     for k in range(3):
@@ -67,42 +77,71 @@ def alphabet():
     return a
 
 
-def gen_history(rnd, maxlen):
+def content_pool(thorough):
+    """content ids for the random histories: mostly plain ones; of the size ladder two rungs in the quick
+    tier (10^4, 10^5; an analysis of 10^6 bytes costs 0.15 s) and all four in the thorough tier; streams
+    (4) and (5) go through the whole ladder systematically in both tiers"""
+    if thorough:
+        return cr.PLAIN * 4 + cr.DENSE * 3 + sorted(cr.SIZED)
+    return cr.PLAIN * 8 + cr.DENSE * 4 + [7, 8]
+
+
+def gen_history(rnd, maxlen, pool=None):
+    pool = pool or content_pool(False)
     paths = list(range(len(cr.PATHS)))
-    init = [(p, rnd.randrange(cr.NCONTENT)) for p in paths if rnd.random() < 0.6]
-    excl = rnd.choice([0, 0, 0, 1, 2, 3])
+    init = [(p, rnd.choice(pool)) for p in paths if rnd.random() < 0.6]
+    excl = rnd.choice([0, 0, 0, 1, 2, 3, 4])
+    cfg = rnd.choice([0, 0, 1, 2, 3])
     ops = []
     files = dict(init)
     nscans = 0
+
+    def dir_rename(a, b):
+        for pb in cr.DIR_FILES[b]:
+            files.pop(pb, None)
+        for pa, pb in zip(cr.DIR_FILES[a], cr.DIR_FILES[b]):
+            if pa in files:
+                files[pb] = files.pop(pa)
     for _ in range(rnd.randint(3, maxlen)):
         r = rnd.random()
         if r < 0.28:
             ops.append(["s"]); nscans += 1
-        elif r < 0.47:
-            p, c = rnd.choice(paths), rnd.randrange(cr.NCONTENT)
+        elif r < 0.40:
+            p, c = rnd.choice(paths), rnd.choice(pool)
             ops.append(["w", p, c]); files[p] = c
+        elif r < 0.44:
+            p, c = rnd.choice(paths), rnd.choice(pool)
+            ops.append(["wb", p, c, rnd.randrange(10)]); files[p] = c
+        elif r < 0.48:
+            p, c = rnd.choice(paths), rnd.choice(pool)
+            ops.append(["ln", p, c]); files[p] = c
         elif r < 0.53:
             p = rnd.choice(paths); ops.append(["d", p]); files.pop(p, None)
-        elif r < 0.60:
+        elif r < 0.58:
             a, b = rnd.sample(paths, 2); ops.append(["r", a, b])
             if a in files:
                 files[b] = files.pop(a)
+        elif r < 0.61:
+            a = rnd.randrange(2); ops.append(["R", a, 1 - a]); dir_rename(a, 1 - a)
         elif r < 0.63:
             ops.append(["t", rnd.choice(paths)])
-        elif r < 0.69:
+        elif r < 0.68:
             a, b = rnd.sample(paths, 2); ops.append(["x", a, b])
             if a in files and b in files:
                 files[a], files[b] = files[b], files[a]
-        elif r < 0.75:
+        elif r < 0.73:
             ops.append(["e", rnd.randrange(len(cr.EXCL))])
+        elif r < 0.75:
+            ops.append(["cfg", rnd.randrange(cr.CFGS)])
         elif r < 0.84:
-            p = rnd.choice(paths[:4])
+            p = rnd.choice([0, 1, 2, 3, 5, 6])
             v = rnd.choice([0, 2, 2, 3, 4])
             hm = rnd.choice([0, files.get(p, 0) + 1, rnd.randrange(cr.NCONTENT) + 1])
             ops.append(["ca", v, p, hm, rnd.choice([0, 1000, 1000])])
         elif r < 0.87:
-            ops.append(rnd.choice([["cr", rnd.choice(paths[:4])], ["cr", rnd.choice(paths[:4])], ["fmt"],
-                                   ["dup", rnd.choice(paths[:4]), 0], ["dup", rnd.choice(paths[:4]), rnd.choice([0, 0, 1])]]))
+            q = [0, 1, 2, 3, 5, 6]
+            ops.append(rnd.choice([["cr", rnd.choice(q)], ["cr", rnd.choice(q)], ["fmt"],
+                                   ["dup", rnd.choice(q), 0], ["dup", rnd.choice(q), rnd.choice([0, 0, 1])]]))
         elif r < 0.91:
             ops.append(["co", rnd.randrange(max(1, nscans))])
         elif r < 0.93:
@@ -114,7 +153,57 @@ def gen_history(rnd, maxlen):
         else:
             ops.append(rnd.choice([["D"], ["M"]]))
     ops.append(["s"])
-    return {"init": [list(x) for x in init], "excl": excl, "ops": ops}
+    return {"init": [list(x) for x in init], "excl": excl, "cfg": cfg, "ops": ops}
+
+
+SUPPORTED = [0, 1, 2, 3, 5, 6]
+
+
+def round_trip_histories(thorough):
+    """stream (4): every content under every supported path goes through the cache"""
+    out = []
+    paths = SUPPORTED if thorough else [0, 2, 3, 5]
+    for c in range(cr.NCONTENT):
+        for i, p in enumerate(paths):
+            k = (c + i) % cr.CFGS
+            out.append({"init": [[p, c]], "excl": 0, "cfg": k,
+                        "ops": [["s"], ["s"], ["t", p], ["s"], ["cfg", (k + 1) % cr.CFGS], ["s"]]})
+    return out
+
+
+def replacement_histories(thorough):
+    """stream (5): every way of putting other bytes under a cached path, for ordered pairs of contents
+    (old, new) from the ladder; p = pkg/b.py or pkg/c.js, q = the same name in the other directory"""
+    cs = list(range(cr.NCONTENT)) if thorough else [1, 4, 7, 9]
+    ages = list(range(10)) if thorough else [2, 8]
+    out = []
+    n = 0
+    for c1 in cs:
+        for c2 in cs:
+            if c1 == c2:
+                continue
+            for p, q in ((1, 5), (2, 6)):
+                if not thorough and (c1 + c2 + p) % 2:
+                    continue        # quick tier: each pair with one of the two file names
+                both = [[p, c1], [q, c2]]
+                kinds = [("write", both, [["w", p, c2]]),
+                         ("delete+write", both, [["d", p], ["w", p, c2]]),
+                         ("rename over", both, [["r", q, p]]),
+                         ("swap", both, [["x", p, q]]),
+                         ("directory renamed over", both, [["R", 1, 0]]),
+                         ("link created", both, [["ln", p, c2]]),
+                         ("link re-pointed", [[q, c2]], None)]
+                kinds += [("back-dated write 10^%d s" % k, both, [["wb", p, c2, k]]) for k in ages]
+                for name, init, repl in kinds:
+                    cfgs = range(cr.CFGS) if thorough else [n % cr.CFGS]
+                    n += 1
+                    for cfg in cfgs:
+                        if repl is None:
+                            ops = [["ln", p, c1], ["s"], ["ln", p, c2], ["s"], ["s"]]
+                        else:
+                            ops = [["s"]] + repl + [["s"], ["s"]]
+                        out.append({"init": init, "excl": 0, "cfg": cfg, "ops": ops, "kind": name})
+    return out
 
 
 # ------------------------------------------------------------------ report / findings version guard
@@ -202,10 +291,16 @@ def correspond(ctx):
     n_ex = len(recs)
     rnd = ctx.rng("random-histories")
     nrand = ctx.pick(1200, 8000)
-    hists = [gen_history(rnd, 25) for _ in range(nrand)]
+    pool = content_pool(ctx.thorough)
+    hists = [gen_history(rnd, 25, pool) for _ in range(nrand)]
     chunks = [hists[i::32] for i in range(32)]
     rrecs = [r for part in cr.pool_map(cr.run_histories, chunks) for r in part]
-    dis, fails = cr.judge(recs + rrecs)
+    # (4) round trips, (5) replacement matrix
+    trips = round_trip_histories(ctx.thorough)
+    repl = replacement_histories(ctx.thorough)
+    extra = trips + repl
+    xrecs = [r for part in cr.pool_map(cr.run_histories, [extra[i::32] for i in range(32)]) for r in part]
+    dis, fails = cr.judge(recs + rrecs + xrecs)
     # version guard of report / findings
     vg = version_guard_cases()
     replies = common.run_driver([c[1] for c in vg])
@@ -219,21 +314,41 @@ def correspond(ctx):
         fails.append({"input": {"stream": "universe"}, "observed": "two contents have the same analysis under one path",
                       "required": "distinct measurement results per (path, content)"})
     nscans_random = sum(len(r["real"]) for r in rrecs)
+    nscans_extra = sum(len(r["real"]) for r in xrecs)
     st = _stats(recs)
     st_r = _stats(rrecs)
-    nontrivial = set(r["request"] for r in recs + rrecs
-                     if any(len(o) == 5 and o[1] for o in r["real"]) or any(op[0] in ("ca", "cj", "cm", "k", "cr", "co", "D", "fmt", "dup") for op in r["input"]["ops"]))
+    manip = ("ca", "cj", "cm", "k", "cr", "co", "D", "fmt", "dup")
+    nontrivial = set(r["request"] + "|%s" % r["input"].get("cfg", 0) for r in recs + rrecs + xrecs
+                     if any(o and len(o) == 5 and o[1] for o in r["real"]) or any(op[0] in manip for op in r["input"]["ops"]))
+    kinds = {}
+    for h in repl:
+        kinds[h["kind"]] = kinds.get(h["kind"], 0) + 1
+    used = {}
+    for r in rrecs + xrecs:
+        for p, c in r["input"]["init"]:
+            used[c] = used.get(c, 0) + 1
+        for op in r["input"]["ops"]:
+            if op[0] in ("w", "wb", "ln"):
+                used[op[2]] = used.get(op[2], 0) + 1
     # shrink what failed (keeps the evidence small and the replay readable)
     fails = _shrunk(fails)
     return {
-        "evaluations": n_ex + nscans_random + len(vg),
+        "evaluations": n_ex + nscans_random + nscans_extra + len(vg),
         "distinct_nontrivial": len(nontrivial),
-        "rule": "from %d initial states (no cache / 3 files scanned / 2 files of equal content scanned under an exclusion) every sequence of at most %d operations over a %d-letter alphabet (write 3x3, delete, rename, touch, swap, exclusions, remove cache, junk, ill-typed, other-version caches with an altered entry and kept / forged checksum, version key removed, old cache restored, entry dropped, truncation, cache dir / marker removal, scan) that ends in a scan: %d scans, each compared with the model and the oracles; %d random histories of length <= 25 on 5 paths x 4 contents x 4 exclusion settings (%d scans); %d report/findings calls on caches of every version class; non-trivial = histories with a reuse or a cache manipulation" % (
-            len(INITS), depth, nal, n_ex, nrand, nscans_random, len(vg)),
-        "samples": [{"request": r["request"], "real_last_scan": str(r["real"][-1])} for r in (recs[5:7] + rrecs[:3])],
+        "rule": "from %d initial states (no cache / 3 files scanned / 2 files of equal content scanned under an exclusion) every sequence of at most %d operations over a %d-letter alphabet (write 3x3, delete, rename, touch, back-dated write, symbolic link to an old file, swap, exclusions, remove cache, junk, ill-typed, other-version caches with an altered entry and kept / forged checksum, version key removed, old cache restored, entry dropped, truncation, cache dir / marker removal, scan) that ends in a scan: %d scans, each compared with the model and the oracles; %d random histories of length <= 25 on 7 paths (two directories with the same file names) x %d contents (4 plain, 2 with several same-named functions on one line, size ladder %s bytes) x 5 exclusion settings (one with a negated pattern) x 4 configurations (verbose, repository; also switched inside a history) with back-dated writes (10^0..10^9 s), links to old files and directories renamed over each other (%d scans); %d round-trip histories (every content under %d paths: scan, scan, touch, scan, other configuration, scan); %d replacement histories (%s) over ordered pairs of %d ladder contents, scan before and twice after (%d scans in streams 4+5); %d report/findings calls on caches of every version class; non-trivial = histories with a reuse or a cache manipulation" % (
+            len(INITS), depth, nal, n_ex, nrand, len(set(pool)), sorted(cr.SIZED[c] for c in set(pool) if c in cr.SIZED),
+            nscans_random, len(trips), len(set(h["init"][0][0] for h in trips)), len(repl),
+            ", ".join("%s %d" % kv for kv in sorted(kinds.items())), len(set(h["init"][-1][1] for h in repl)), nscans_extra, len(vg)),
+        "samples": [{"request": r["request"], "real_last_scan": str(r["real"][-1])} for r in (recs[5:7] + rrecs[:3] + xrecs[:2])],
         "exhaustive": True,
         "distribution": {"exhaustive": st, "random": st_r, "random_scans": nscans_random,
-                         "forged_histories_skipped": sum(1 for r in recs + rrecs if r.get("forged"))},
+                         "round_trip_histories": len(trips), "replacement_histories": kinds,
+                         "round_trip_and_replacement": _stats(xrecs), "round_trip_and_replacement_scans": nscans_extra,
+                         "content_uses_outside_exhaustive": {str(k): v for k, v in sorted(used.items())},
+                         "content_bytes": {str(k): len(cr.content(k)) for k in range(cr.NCONTENT)},
+                         "configurations_random": {str(k): sum(1 for r in rrecs if r["input"].get("cfg", 0) == k) for k in range(cr.CFGS)},
+                         "oracle_only_histories": sum(1 for r in recs + rrecs + xrecs if r.get("oracle_only")),
+                         "forged_histories_skipped": sum(1 for r in recs + rrecs + xrecs if r.get("forged"))},
         "disagreements": dis[:50], "oracle_failures": fails[:50],
     }
 
@@ -267,7 +382,8 @@ def search(ctx, hints):
         if len(found) >= 3:
             return found
     rnd = ctx.rng("search")
-    hists = [gen_history(rnd, 25) for _ in range(ctx.pick(400, 3000))]
+    hists = [gen_history(rnd, 25, content_pool(ctx.thorough)) for _ in range(ctx.pick(400, 3000))]
+    hists += replacement_histories(False) + round_trip_histories(False)
     recs = [r for part in cr.pool_map(cr.run_histories, [hists[i::32] for i in range(32)]) for r in part]
     dis, fails = cr.judge(recs)
     for d in dis[:3]:
